@@ -776,6 +776,36 @@ def db_m_duplicate_table(spec, wb, rng, fw):
     return False
 
 
+def db_m_duplicate_table_other_sheet(spec, wb, rng, fw):
+    """the table of one quantity appears a second time, on another sheet (with other numbers)"""
+    src = None
+    for ws in wb.worksheets:
+        if ws.title in ("Population Definitions", "Transfers", "Interactions"):
+            continue
+        r = 1
+        while r <= ws.max_row:
+            v = ws.cell(r, 1).value
+            if isinstance(v, str) and v.startswith(("Par ", "Comp ")):
+                r2 = r
+                while r2 + 1 <= ws.max_row and ws.cell(r2 + 1, 1).value not in (None, ""):
+                    r2 += 1
+                if r2 > r:
+                    src = (ws, r, r2)
+                    break
+            r += 1
+        if src:
+            break
+    if not src:
+        return False
+    ws, r1, r2 = src
+    new = wb.create_sheet("Other " + ws.title[:20])
+    for i, r in enumerate(range(r1, r2 + 1)):
+        for c in range(1, ws.max_column + 1):
+            v = ws.cell(r, c).value
+            new.cell(i + 1, c).value = (v * 0.5 if isinstance(v, float) and i > 0 and c > 2 else v)
+    return True
+
+
 def db_m_text_value(spec, wb, rng, fw):
     ws = wb["Parameters"] if "Parameters" in wb.sheetnames else None
     if ws is None:
@@ -830,6 +860,7 @@ DB_MUTATIONS = [
     ("databook:missing-population-row", "reject", db_m_missing_pop_row),
     ("databook:unknown-table", "reject", db_m_unknown_table),
     ("databook:duplicate-table", "reject", db_m_duplicate_table),
+    ("databook:duplicate-table[on another sheet]", "reject", db_m_duplicate_table_other_sheet),
     ("databook:text-in-value-cell", "reject", db_m_text_value),
     ("databook:wrong-workbook-kind", "reject", db_m_wrong_kind),
     ("databook:population-named-like-quantity", "reject", db_m_pop_named_like_quantity),
